@@ -259,6 +259,9 @@ def set_bibs(name):
         enc_ = {'A': '', 'B': ' ', 'C': '00', 'D': '  '}          # one type, or the card export cannot sort its rows
         d = {'': 'A', ' ': 'B', '00': 'C', '  ': 'D'}
         BIBCODEC = (name, enc_, d)
+    elif name == 'zero-padded':     # numeric bibs written with leading zeros, two of them equal as numbers
+        enc_ = {'A': '053', 'B': '007', 'C': '7', 'D': '0081'}
+        BIBCODEC = (name, enc_, {v: k for k, v in enc_.items()})
     elif name == 'none':            # a single athlete whose bib is None
         BIBCODEC = (name, {'A': None}, {None: 'A', 'None': 'A'})
     else:
